@@ -30,6 +30,7 @@ DECIDED = [
     "SER-1 the JSON/YAML serialisers cover date, time and datetime values and are not called with value-narrowing options",
     "RET-1 (shared with C05) the dtype converters return normal forms",
     "LOOP-1 reader and writer loops carry no state between sibling entries",
+    "READ-1 the dictionary reader only constructs: it never resolves links / includes (finalize, merge, clean) on what it read",
     "ORD-3 (dict half) parse_cardinality(list(c)) == c for every normal-form cardinality c",
 ]
 NOT_DECIDED = [
@@ -44,6 +45,26 @@ WRITER_FUNCS = {"Document": "tools.dict_parser.DictWriter.to_dict",
 READER_FUNCS = {"Document": "tools.dict_parser.DictReader.to_odml",
                 "Section": "tools.dict_parser.DictReader.parse_sections",
                 "Property": "tools.dict_parser.DictReader.parse_properties"}
+
+
+RESOLVERS = ("finalize", "clean", "merge", "unmerge")
+
+
+def reader_constructs_only(prog, rep, entry_funcs, rule="READ-1"):
+    """a reader returns what the file says: resolving stored links / includes (which copies the referenced content into the
+    linking Section) is left to the caller (shared by the XML and the dictionary reader)."""
+    rep.rule(rule, "no call of %s in the reader functions or the private helpers they use: a stored link / include stays a stored "
+                   "path until the user resolves it" % (RESOLVERS,))
+    n = 0
+    for f in entry_funcs:
+        for h in private_closure(f):
+            n += 1
+            bad = [c for c in calls_in(h.node) if isinstance(c.func, ast.Attribute) and c.func.attr in RESOLVERS]
+            rep.check(not bad, rule, "%s resolves nothing" % h.short, "ok",
+                      "%s calls .%s(): the loaded document gains the children of the referenced Sections (with new ids), which the "
+                      "saved file never contained" % (h.short, bad[0].func.attr if bad else ""), where(h, bad[0]) if bad else h.where,
+                      witness="save and reload a document whose Section stores an unresolved link: the reloaded Section has extra children")
+    rep.floor(rule, n, len(entry_funcs), "reader functions inspected")
 
 
 def falsy_set_attributes(prog, fname):
@@ -370,6 +391,9 @@ def run(prog, rep):
             if h not in funcs:
                 funcs.append(h)
     loop_carried_state(prog, rep, funcs, "LOOP-1")
+
+    # ---------------------------------------------------------------- READ-1
+    reader_constructs_only(prog, rep, [prog.func(q) for q in READER_FUNCS.values()], "READ-1")
 
     # ----------------------------------------------------------------- ORD-3 / TAB-4
     cardinality_roundtrip(prog, rep, which=("dict",))
